@@ -66,6 +66,7 @@ typedef struct {
                       variables tied to these hard registers (r12: SIB needed, r13: no mod=00 form, ...) */
   int nhr;
   uint64_t pmask;  /* defined bits of the result, for the comparison of the copies */
+  int hiblk;       /* C20 modes: the block of this case lies above 2^32 (absolute addresses that do not fit 32 bits) */
   opnd_t dst, x, y;
 } case_t;
 
@@ -129,6 +130,7 @@ static int parse_case (char *line, case_t *c) {
     else if (strncmp (tok, "bover=", 6) == 0) c->bover = atoi (tok + 6);
     else if (strncmp (tok, "press=", 6) == 0) c->press = atoi (tok + 6);
     else if (strncmp (tok, "far=", 4) == 0) c->far = atoi (tok + 4);
+    else if (strncmp (tok, "hiblk=", 6) == 0) c->hiblk = atoi (tok + 6);
     else if (strncmp (tok, "hr=", 3) == 0) {
       const char *q = tok + 3;
       while (*q != 0 && c->nhr < 8) {
@@ -602,10 +604,12 @@ static MIR_item_t build_case (MIR_context_t ctx, case_t *c, const char *name) {
 }
 
 /* the data block for a case */
-static unsigned char block[256] __attribute__ ((aligned (16)));
+#define BLOCK_SIZE 256
+static unsigned char block_static[BLOCK_SIZE] __attribute__ ((aligned (16)));
+static unsigned char *block = block_static; /* C20 modes (emitc / runso) place it at a fixed address, see c20_select_block */
 
 static void fill_block (case_t *c) {
-  memset (block, 0xA5, sizeof (block));
+  memset (block, 0xA5, BLOCK_SIZE);
   if (c->prime >= 0) {
     static const uint64_t pa[4] = {1, 0x7fffffffffffffffull, 0xffffffffffffffffull, 0x8000000000000000ull};
     memcpy (block + 80, &pa[c->prime], 8);
@@ -656,8 +660,51 @@ static void fix_disps (case_t *c) {
   }
 }
 
+/* ---- C20: base-less memory forms embed absolute addresses in the translated C (disp only: the address itself; index *
+   scale [+ disp]: the index register is loaded with address / scale).  The translation is printed by one process (emitc) and
+   run by another (runso), so in these two modes the block lives at one of two fixed addresses, the same in both processes:
+   a low one (a displacement that fits 32 bits) and a high one (hiblk=1: needs more than 32 bits). */
+#include <sys/mman.h>
+#ifndef MAP_FIXED_NOREPLACE
+#define MAP_FIXED_NOREPLACE 0x100000
+#endif
+#define C20_LOW_PAGE 0x2a5a0000ull
+#define C20_HIGH_PAGE 0x2a5a5a5a0000ull
+static unsigned char *c20_blocks[2];
+static int c20_map_blocks (void) {
+  static const unsigned long long pages[2] = {C20_LOW_PAGE, C20_HIGH_PAGE};
+  for (int i = 0; i < 2; i++) {
+    void *want = (void *) (uintptr_t) pages[i];
+    void *p = mmap (want, 4096, PROT_READ | PROT_WRITE, MAP_PRIVATE | MAP_ANONYMOUS | MAP_FIXED_NOREPLACE, -1, 0);
+    if (p != want) return 0;
+    c20_blocks[i] = (unsigned char *) p + 1024;
+  }
+  return 1;
+}
+static void c20_select_block (case_t *c) { block = c20_blocks[c->hiblk ? 1 : 0]; }
+
+/* the displacement of base-less memory operands, given the (fixed) block address: form d = the address of the cell; forms
+   i / id: the generator's displacement, moved up to the next value for which address - disp is a multiple of the scale
+   (fill_block then loads the index register with (address - disp) / scale).  Forms with a base register are untouched. */
+static void fix_disps_c20 (case_t *c) {
+  opnd_t *os[3] = {&c->x, &c->y, &c->dst};
+  for (int i = 0; i < 3; i++) {
+    opnd_t *o = os[i];
+    if (o->kind != 'm') continue;
+    int has_b = strchr (o->form, 'b') != NULL, has_i = strchr (o->form, 'i') != NULL, has_d = strchr (o->form, 'd') != NULL;
+    int64_t addr = (int64_t) (intptr_t) (block + 128 + 32 * i);
+    if (has_b) continue;
+    if (!has_i) {
+      o->disp = addr;
+    } else if (has_d) {
+      int64_t rem = (int64_t) (((uint64_t) addr - (uint64_t) o->disp) % (uint64_t) o->scale);
+      o->disp = (int64_t) ((uint64_t) o->disp + (uint64_t) rem);
+    }
+  }
+}
+
 static unsigned char block0[256];
-static void save_block (void) { memcpy (block0, block, sizeof (block)); }
+static void save_block (void) { memcpy (block0, block, BLOCK_SIZE); }
 
 /* prints the return value and the maximal runs of block bytes that differ from their initial value */
 static void print_obs (const char *eng, int64_t ret) {
@@ -863,8 +910,10 @@ static int emitc_mode (const char *out) {
   MIR_set_error_func (ctx, err_func);
   FILE *f = fopen (out, "w");
   if (f == NULL) return 2;
-  /* the block address must be the same in the run: it is passed as the argument, but disp-only
-     memory forms embed absolute addresses, so the generator avoids base-less forms for C20 */
+  if (!c20_map_blocks ()) {
+    printf ("module ERR(cannot map the fixed-address blocks)\n");
+    return 3;
+  }
   MIR_module_t m = MIR_new_module (ctx, "c20");
   while (fgets (line, sizeof (line), stdin) != NULL) {
     if (line[0] == '\n' || line[0] == '#') continue;
@@ -877,6 +926,8 @@ static int emitc_mode (const char *out) {
       fclose (f);
       return 3;
     }
+    c20_select_block (&c);
+    fix_disps_c20 (&c);
     build_case (ctx, &c, fname);
     MIR_new_export (ctx, fname);
   }
@@ -954,14 +1005,67 @@ static int probe_mode (void) {
   return 0;
 }
 
+/* one function per line `<ty> <form> <scale> <disp>` on stdin: `pa_<n>` holding just a move of the type's kind from the
+   memory operand <ty>:<disp>(qb, qi, <scale>) (form letters b / i / d say which parts are present) into register qa0, and
+   `ret 0`; the C text mir2c prints goes to stdout.  Used by tools/tr_c20_addr.py to read (or cross-check) what out_op
+   prints for every memory-operand address form. */
+static int probeaddr_mode (void) {
+  char line[200];
+  MIR_context_t ctx = MIR_init ();
+  MIR_set_error_func (ctx, err_func);
+  MIR_module_t m = MIR_new_module (ctx, "probeaddr");
+  int n = 0;
+  if (setjmp (err_jmp)) {
+    fprintf (stderr, "probeaddr: %s\n", err_msg);
+    return 3;
+  }
+  while (fgets (line, sizeof (line), stdin) != NULL) {
+    char ty[8], form[8];
+    int scale;
+    long long disp;
+    if (sscanf (line, "%7s %7s %d %lld", ty, form, &scale, &disp) != 4) continue;
+    MIR_type_t t = type_of_name (ty);
+    if (t == MIR_T_BOUND) continue;
+    char fname[40];
+    snprintf (fname, sizeof (fname), "pa_%d", n++);
+    MIR_type_t res_type = MIR_T_I64;
+    MIR_item_t func = MIR_new_func_arr (ctx, fname, 1, &res_type, 0, NULL);
+    char k = t == MIR_T_F ? 'f' : t == MIR_T_D ? 'd' : t == MIR_T_LD ? 'l' : 'i';
+    MIR_reg_t v = MIR_new_func_reg (ctx, func->u.func, kind_type (k), "qa0");
+    MIR_reg_t base = strchr (form, 'b') != NULL ? MIR_new_func_reg (ctx, func->u.func, MIR_T_I64, "qb") : 0;
+    MIR_reg_t index = strchr (form, 'i') != NULL ? MIR_new_func_reg (ctx, func->u.func, MIR_T_I64, "qi") : 0;
+    MIR_op_t mem = MIR_new_mem_op (ctx, t, strchr (form, 'd') != NULL ? (MIR_disp_t) disp : 0, base, index, (MIR_scale_t) scale);
+    MIR_append_insn (ctx, func, MIR_new_insn (ctx, kind_mov (k), MIR_new_reg_op (ctx, v), mem));
+    MIR_append_insn (ctx, func, MIR_new_ret_insn (ctx, 1, MIR_new_int_op (ctx, 0)));
+    MIR_finish_func (ctx);
+  }
+  MIR_finish_module (ctx);
+  MIR_module2c (ctx, stdout, m);
+  MIR_finish (ctx);
+  return 0;
+}
+
 #endif
+
+/* a translation that addresses memory wrongly usually dies: the case is reported (c=ERR(signal n)) and the batch goes on */
+#include <signal.h>
+static sigjmp_buf runso_jmp;
+static void runso_signal (int sig) { siglongjmp (runso_jmp, sig); }
 
 static int runso_mode (const char *lib) {
   char line[2000];
   case_t c;
   void *h = dlopen (lib, RTLD_NOW);
+  signal (SIGSEGV, runso_signal);
+  signal (SIGBUS, runso_signal);
+  signal (SIGFPE, runso_signal);
+  signal (SIGILL, runso_signal);
   if (h == NULL) {
     printf ("ERR dlopen %s\n", dlerror ());
+    return 2;
+  }
+  if (!c20_map_blocks ()) {
+    printf ("ERR cannot map the fixed-address blocks\n");
     return 2;
   }
   while (fgets (line, sizeof (line), stdin) != NULL) {
@@ -975,8 +1079,16 @@ static int runso_mode (const char *lib) {
       printf (" c=ERR(no symbol)\n");
       continue;
     }
+    c20_select_block (&c);
+    fix_disps_c20 (&c);
     fill_block (&c);
     save_block ();
+    int sig = sigsetjmp (runso_jmp, 1);
+    if (sig != 0) {
+      printf (" c=ERR(signal-%d)\n", sig);
+      fflush (stdout);
+      continue;
+    }
     int64_t ret = fun ((int64_t) (intptr_t) block);
     print_obs ("c", ret);
     printf ("\n");
@@ -993,6 +1105,7 @@ int main (int argc, char **argv) {
   if (argc >= 3 && strcmp (argv[1], "runso") == 0) return runso_mode (argv[2]);
 #ifdef C02_WITH_MIR2C
   if (argc >= 2 && strcmp (argv[1], "probe") == 0) return probe_mode ();
+  if (argc >= 2 && strcmp (argv[1], "probeaddr") == 0) return probeaddr_mode ();
 #endif
   fprintf (stderr, "usage: c02_insn run | emitc FILE | runso LIB   (cases on stdin)\n");
   return 2;
